@@ -184,6 +184,11 @@ def run_unit(unit):
     if vr.get("encountered-vir-error") or hard or (not vr.get("success") and not vr.get("errors")):
         raise Broken("verus rejected unit %s (unsupported construct or type error, not a verification failure):\n%s" % (unit, "\n".join(e["text"] for e in hard[:3]) or diag[-2000:]))
     breakdown = {}
+    lemma_names = [l.get("verus_name", l["id"]) for l in spec.get("lemma", [])]
+    stray = [e for e in errs if e["function"] is None and not e["message"].startswith("aborting due")
+             and not any(n.split("::")[-1] in e["text"] for n in lemma_names)]
+    if stray:
+        raise Broken("verus reports an error outside the extracted functions of unit %s (env.rs needs maintenance):\n%s" % (unit, stray[0]["text"]))
     for mod in data.get("times-ms", {}).get("smt", {}).get("smt-run-module-times", []):
         for fb in mod.get("function-breakdown", []):
             breakdown[fb["function"].split("::", 1)[-1]] = fb
